@@ -96,6 +96,12 @@ Definition auto_ok (t : mtable) : bool :=
 Definition drop_redundant_generated (newcols : list string) (l : list mindex) : list mindex :=
   filter (fun i => negb (ix_generated i && is_prefix (ix_cols i) newcols)) l.
 
+(* [1063 Incorrect column specifier] AUTO_INCREMENT is accepted on integer (and, deprecated, floating-point) columns
+   only (manual, "Using AUTO_INCREMENT"; CREATE TABLE, column_definition) *)
+Definition auto_type_ok (ty : string) : bool :=
+  mem_str ty ["tinyint"; "smallint"; "mediumint"; "int"; "integer"; "bigint"; "float"; "double"].
+Definition auto_spec_ok (d : coldef) : bool := (negb (cd_auto d) || auto_type_ok (cd_type d))%bool.
+
 Definition mcol_of_def (d : coldef) : mcol :=
   mkMCol (cd_name d) (cd_type d) (cd_notnull d) (cd_default d) (cd_auto d).
 
@@ -199,6 +205,7 @@ Definition exec (c : catalog) (s : stmt) : result catalog engine_error :=
          foreign keys [M10]; checks [M12]; auto column [M1c] *)
       if has_tb t c then Err (EErr "M1a table already exists (1050)" t)
       else if negb (nodup_str (map cd_name cols)) then Err (EErr "M1b duplicate column name (1060)" t)
+      else if negb (forallb auto_spec_ok cols) then Err (EErr "M1e incorrect column specifier: AUTO_INCREMENT on a non-numeric column (1063)" t)
       else
         let inline_pk := map cd_name (filter cd_pk cols) in
         let t0 := mkMTable t (map mcol_of_def cols) None [] [] [] in
@@ -250,6 +257,7 @@ Definition exec (c : catalog) (s : stmt) : result catalog engine_error :=
       (* [M6] column name new (1060) *)
       with_tb c t (fun tb =>
         if has_mcol (cd_name d) tb then Err (EErr "M6a duplicate column name (1060)" (cd_name d))
+        else if negb (auto_spec_ok d) then Err (EErr "M6b incorrect column specifier: AUTO_INCREMENT on a non-numeric column (1063)" (cd_name d))
         else
           let tb' := mkMTable (tb_name tb) (tb_cols tb ++ [mcol_of_def d]) (tb_pk tb) (tb_indexes tb) (tb_fks tb) (tb_checks tb) in
           if auto_ok tb' then Ok (replace_tb tb' t c)
@@ -298,6 +306,7 @@ Definition exec (c : catalog) (s : stmt) : result catalog engine_error :=
         if negb (has_mcol (cd_name d) tb) then Err (EErr "M9a unknown column (1054)" (cd_name d))
         else if (negb (cd_notnull d) && match tb_pk tb with Some p => mem_str (cd_name d) p | None => false end)%bool
         then Err (EErr "M9b all parts of a PRIMARY KEY must be NOT NULL (1171)" (cd_name d))
+        else if negb (auto_spec_ok d) then Err (EErr "M9c incorrect column specifier: AUTO_INCREMENT on a non-numeric column (1063)" (cd_name d))
         else
           let tb' := mkMTable (tb_name tb)
                        (map (fun x => if String.eqb (mc_name x) (cd_name d) then mcol_of_def d else x) (tb_cols tb))
